@@ -530,6 +530,35 @@ func sortOf(t *Term) string {
 	}
 }
 
+func fpSort(w int) string {
+	if w == 32 {
+		return "8 24"
+	}
+	return "11 53"
+}
+
+func toFP(t *Term, ref func(*Term) string) string {
+	return fmt.Sprintf("((_ to_fp %s) %s)", fpSort(t.w), ref(t))
+}
+
+func FPCmp(op string, a, b *Term) *Term         { return mk("fpcmp", 0, op, 0, 0, a, b) }
+func FPArith(op string, r, a, b *Term) *Term    { return mk("fparith", 0, op, 0, 0, r, a, b) }
+func FPFromInt(signed bool, r, x *Term) *Term {
+	n := "u"
+	if signed {
+		n = "s"
+	}
+	return mk("fpfromint", 0, n, 0, 0, r, x)
+}
+func FPCvt(r, a *Term) *Term { return mk("fpcvt", 0, "", 0, 0, r, a) }
+func FPToInt(signed bool, w int, a *Term) *Term {
+	n := "u"
+	if signed {
+		n = "s"
+	}
+	return mk("fptoint", w, n, 0, 0, a)
+}
+
 // head renders the node with already-named children.
 func (t *Term) head(ref func(*Term) string) string {
 	switch t.op {
@@ -547,6 +576,24 @@ func (t *Term) head(ref func(*Term) string) string {
 		return fmt.Sprintf("((_ sign_extend %d) %s)", t.p1, ref(t.args[0]))
 	case "extract":
 		return fmt.Sprintf("((_ extract %d %d) %s)", t.p1, t.p2, ref(t.args[0]))
+	case "fpcmp": // IEEE comparison of two floats held as bit patterns
+		return fmt.Sprintf("(fp.%s %s %s)", t.name, toFP(t.args[0], ref), toFP(t.args[1], ref))
+	case "fparith": // r is the bit pattern of a op b (round to nearest even)
+		return fmt.Sprintf("(= %s (fp.%s RNE %s %s))", toFP(t.args[0], ref), t.name, toFP(t.args[1], ref), toFP(t.args[2], ref))
+	case "fpfromint": // r is the bit pattern of the integer x converted to floating point
+		f := "to_fp_unsigned"
+		if t.name == "s" {
+			f = "to_fp"
+		}
+		return fmt.Sprintf("(= %s ((_ %s %s) RNE %s))", toFP(t.args[0], ref), f, fpSort(t.args[0].w), ref(t.args[1]))
+	case "fpcvt": // r is a converted to the other precision
+		return fmt.Sprintf("(= %s ((_ to_fp %s) RNE %s))", toFP(t.args[0], ref), fpSort(t.args[0].w), toFP(t.args[1], ref))
+	case "fptoint":
+		f := "fp.to_ubv"
+		if t.name == "s" {
+			f = "fp.to_sbv"
+		}
+		return fmt.Sprintf("((_ %s %d) RTZ %s)", f, t.w, toFP(t.args[0], ref))
 	}
 	ss := make([]string, len(t.args))
 	for i, a := range t.args {
